@@ -62,20 +62,35 @@ def replay_mesh(model, cls="SinglePhaseReservoir", nx=5):
             alpha = interp1d(np.asarray(base.alpha.x, float), np.asarray(base.alpha.y, float) * 1e-17, bounds_error=False,
                              fill_value=(float(np.min(base.alpha.y)) * 1e-17, float(np.max(base.alpha.y)) * 1e-17))
         fluids.append(Rescaled())
+        # the shipped table with the user's own CONSTANT diffusivity column next to the full PVT columns: the documented
+        # problem is then the constant-diffusivity one (closed-form series), so every interior row must carry a_j = 1
+        import warnings
+        import pandas as pd
+        from bluebonnet.flow import FlowProperties
+        from ..sx import loader
+        pvt = pd.read_csv(loader.REPO + "/tests/data/pvt_gas.csv").rename(columns={"P": "pressure", "Z-Factor": "z-factor", "Cg": "compressibility",
+                                                                            "Viscosity": "viscosity", "Density": "density"})
+        pvt["pseudopressure"] = np.asarray(base.pvt_props["pseudopressure"], float) if "pseudopressure" in base.pvt_props else pvt["pressure"] ** 2
+        pvt["alpha"] = 3.5
+        with warnings.catch_warnings():
+            warnings.simplefilter("ignore")
+            const = FlowProperties(pvt, 8000.0)
+        fluids.append(const)
+    labels = ["shipped gas table", "shipped gas table, diffusivity in units 1e-17 times smaller", "shipped gas table with a constant user diffusivity column"]
     problems = []
-    for fluid in fluids:
+    for fi, fluid in enumerate(fluids):
         res, calls = real_capture(cls, nx, t, fluid, None if fluid is None else np.full(3, 1000.0))
         xs = np.linspace(0, 1, nx) if fluid is None else np.linspace(1 / nx, 1, nx)
         pp = np.asarray(res.pseudopressure, float)
         for i, c in enumerate(calls):
             dt = t[i + 1] - t[i]
             prev = np.minimum(pp[i], 1.0 if fluid is None else float(fluid.m_i))
-            a = np.ones(nx) if fluid is None else fluid.alpha(prev) / fluid.alpha(fluid.m_i)
+            a = np.ones(nx) if fluid is None or fi == 2 else fluid.alpha(prev) / fluid.alpha(fluid.m_i)
             got = c["A"] @ xs**2
             for j in range(1, nx - 1):
                 want = xs[j] ** 2 - 2 * dt * a[j]
                 if abs(got[j] - want) > 1e-9 * (1 + abs(want)):
-                    problems.append(f"{'shipped gas table' if fluid is fluids[0] else 'shipped gas table, diffusivity in units 1e-17 times smaller'}: "
+                    problems.append(f"{labels[fi]}: "
                                     f"step {i} row {j}: (A x^2)_j = {got[j]!r} vs x_j^2 - 2 dt a_j = {want!r}")
     return bool(problems), {"what": f"{cls} nx={nx}: " + ("; ".join(problems[:2]) or "interior rows exact for x^2 on the documented nodes"), "inputs": {}}
 
@@ -411,12 +426,72 @@ def job_row_order(job, n):
     job.prove(f"row-order[{n}]/reach", dom, expect="sat")
 
 
+def replay_user_alpha(model, n=3):
+    """Real FlowProperties from the model's table with the full PVT columns AND the user's own diffusivity column: the
+    diffusivity the solver reads at every table node is the user's."""
+    import warnings
+    import numpy as np
+    from bluebonnet.flow import flowproperties as fp
+    from .c09 import _real_table, _names, LONG
+    cols = LONG + ("alpha",)
+    names = _names(n, cols)
+    m = model_floats(model, names, default={k: 1.0 for k in names})
+    problems = []
+    for const in (False, True):
+        t = _real_table(m, n, cols)
+        if const:
+            t["alpha"] = np.full(n, 3.5)
+        pi = min(max(m["pi"], float(t["pressure"][0])), float(t["pressure"][-1]))
+        with warnings.catch_warnings():
+            warnings.simplefilter("ignore")
+            with np.errstate(all="ignore"):
+                A = fp.FlowProperties({k: v.copy() for k, v in t.items()}, pi)
+                ms = np.asarray(A.pvt_props["m-scaled"], float)
+                got = np.asarray(A.alpha(ms), float)
+        for k in range(n):
+            if abs(got[k] - t["alpha"][k]) > 1e-9 * abs(t["alpha"][k]):
+                problems.append(f"user diffusivity column {t['alpha'].tolist()}: the solver reads alpha = {got[k]!r} at table node {k}")
+    return bool(problems), {"what": "; ".join(problems[:2]) or "the user's diffusivity is the one the solver reads", "inputs": m}
+
+
+def job_user_alpha(job, n):
+    """Which problem is solved when the table carries the user's own diffusivity column next to the full PVT columns: the
+    documented one with the USER's diffusivity (the constant-diffusivity closed form when that column is constant), so the
+    function the time stepping reads must return the user's values at the table nodes."""
+    from . import c09
+    mod = c09._load()
+    job.encoded(mod, "FlowProperties.__init__")
+    tab, ps, dom = c09._table(n, c09.LONG + ("alpha",))
+    pi = fresh("pi", pos=True)
+    dom = dom + [T.b_le(P(ps[0]), P(pi)), T.b_le(P(pi), P(ps[-1]))]
+    rp = (replay_user_alpha, {"n": n})
+    user = list(tab["alpha"].d)
+
+    def run():
+        import warnings
+        SS.reset_names()
+        with warnings.catch_warnings():
+            warnings.simplefilter("ignore")
+            A = mod.FlowProperties({k: v.copy() for k, v in tab.items()}, pi)
+        ms = A.pvt_props["m-scaled"]
+        return [A.alpha(ms.d[k]) for k in range(n)]
+
+    for k, pr in enumerate(paths(job, run, dom, max_paths=256)):
+        if pr.exc is not None:
+            job.errors.append(f"user-alpha[{n}] raised {pr.exc!r}")
+            continue
+        bad = T.b_or(*[not_close(pr.value[j], user[j], abs_tol=Fraction(0)) for j in range(n)])
+        job.prove(f"user-alpha[{n}]/with full PVT columns and a diffusivity column, the solver reads the user's diffusivity at the nodes[path{k}]",
+                  pr.pc + [bad], bound=f"{n} rows", replay=rp)
+    job.prove(f"user-alpha[{n}]/reach", dom, expect="sat")
+
+
 # concrete replays run on the real code when the changed code uses something the engine does not model (harness.finish)
 FALLBACK = [(replay_boundary, {}), (replay_boundary, {"cls": "IdealReservoir"}), (replay_mesh, {}), (replay_mesh, {"cls": "IdealReservoir"}), (replay_recovery, {}), (replay_rows, {"nx": 4, "nt": 3}), (replay_rows, {"cls": "IdealReservoir", "nx": 4, "nt": 3})]
 
 
 def jobs(tier):
-    out = [("row-order-3", lambda j: job_row_order(j, 3))]
+    out = [("row-order-3", lambda j: job_row_order(j, 3)), ("user-alpha-3", lambda j: job_user_alpha(j, 3))]
     for nx in ((5, 6) if tier == "quick" else (5, 6, 7, 8)):
         for cls in ("IdealReservoir", "SinglePhaseReservoir"):
             out.append((f"L1-{cls[:6]}-{nx}", lambda j, c=cls, n=nx: job_interior(j, c, n)))
